@@ -307,6 +307,7 @@ func c13(c *Ctx) {
 	carryOrderRule(c, "codecs.(*AV1Depacketizer).Unmarshal", "buffer")
 	entries = append(entries, av1Setup(c)...)
 	boundsFor(c, "C13", entries)
+	accFreshFor(c, 4, "codecs/av1_packet.go", "codecs/av1_depacketizer.go", "codecs/av1/")
 	r.Infof("CTR.lenprefix: %d length-prefix/data pair(s) recognised and reached", len(c.lenPairsSeen))
 	r.Infof("CTR.wclosed: %d path(s) that close a packet with the W field checked", c.wClosedSeen)
 	r.Infof("CTR.carrylayer: %d path(s) around the payloader's loop checked", c.carryNilSeen)
